@@ -4,6 +4,8 @@ pub mod ctx;
 pub mod panics;
 pub mod prng;
 pub mod refhash;
+pub mod specs;
+pub mod fixgen;
 
 pub use ctx::{hex_short, hexs, Ctx, Tier};
 pub use prng::{fp, fp_mix, Rng};
